@@ -342,3 +342,113 @@ func eqValue(a, b reflect.Value) bool {
 		return reflect.DeepEqual(a.Interface(), b.Interface())
 	}
 }
+
+// refEncode is an independent SSZ encoder for the tagged containers, written from the SSZ rules (fixed
+// fields inline, one 4-byte offset per variable field, lists of variable items carry their own offset
+// table). It applies no limits, so it can produce the encoding of an over-limit value that the code's
+// own encoder refuses to emit; for in-limit values it must agree with the code's encoder.
+func refEncode(obj any) []byte {
+	v := reflect.ValueOf(obj).Elem()
+	ty := v.Type()
+	type part struct {
+		fixed []byte // inline bytes, or nil when variable
+		vari  []byte
+	}
+	parts := make([]part, ty.NumField())
+	le := func(n uint64, size int) []byte {
+		b := make([]byte, size)
+		for i := 0; i < size; i++ {
+			b[i] = byte(n >> (8 * uint(i)))
+		}
+		return b
+	}
+	for i := 0; i < ty.NumField(); i++ {
+		f := ty.Field(i)
+		fs := specOf(f)
+		fv := v.Field(i)
+		switch fv.Kind() {
+		case reflect.Uint64:
+			parts[i].fixed = le(fv.Uint(), 8)
+		case reflect.Uint16:
+			parts[i].fixed = le(fv.Uint(), 2)
+		case reflect.Uint8:
+			parts[i].fixed = le(fv.Uint(), 1)
+		case reflect.Slice:
+			et := f.Type.Elem()
+			switch {
+			case et.Kind() == reflect.Uint8: // bytes or bitlist
+				b := append([]byte{}, fv.Bytes()...)
+				if !fs.bitlist && len(fs.dims) > 0 && fs.dims[0].fixed >= 0 {
+					parts[i].fixed = b
+				} else {
+					parts[i].vari = b
+					if parts[i].vari == nil {
+						parts[i].vari = []byte{}
+					}
+				}
+			case et.Kind() == reflect.Array: // list of fixed arrays
+				var b []byte
+				for j := 0; j < fv.Len(); j++ {
+					for k := 0; k < et.Len(); k++ {
+						b = append(b, byte(fv.Index(j).Index(k).Uint()))
+					}
+				}
+				if b == nil {
+					b = []byte{}
+				}
+				parts[i].vari = b
+			default: // [][]byte
+				outerFixed := len(fs.dims) > 0 && fs.dims[0].fixed >= 0
+				innerFixed := len(fs.dims) > 1 && fs.dims[1].fixed >= 0
+				var b []byte
+				if innerFixed {
+					for j := 0; j < fv.Len(); j++ {
+						b = append(b, fv.Index(j).Bytes()...)
+					}
+				} else {
+					off := 4 * fv.Len()
+					for j := 0; j < fv.Len(); j++ {
+						b = append(b, le(uint64(off), 4)...)
+						off += fv.Index(j).Len()
+					}
+					for j := 0; j < fv.Len(); j++ {
+						b = append(b, fv.Index(j).Bytes()...)
+					}
+				}
+				if b == nil {
+					b = []byte{}
+				}
+				if outerFixed && innerFixed {
+					parts[i].fixed = b
+				} else {
+					parts[i].vari = b
+				}
+			}
+		}
+	}
+	// four types are bare lists on the wire (the SSZ type is List, not Container): no offset in front
+	switch ty.Name() {
+	case "Content", "Enrs", "PortalReceipts", "EphemeralHeaderPayload":
+		if len(parts) == 1 && parts[0].vari != nil {
+			return parts[0].vari
+		}
+	}
+	fixedLen := 0
+	for _, p := range parts {
+		if p.vari != nil {
+			fixedLen += 4
+		} else {
+			fixedLen += len(p.fixed)
+		}
+	}
+	var out, tail []byte
+	for _, p := range parts {
+		if p.vari != nil {
+			out = append(out, le(uint64(fixedLen+len(tail)), 4)...)
+			tail = append(tail, p.vari...)
+		} else {
+			out = append(out, p.fixed...)
+		}
+	}
+	return append(out, tail...)
+}
